@@ -156,8 +156,11 @@ class Run(object):
         elif k == 'array':
             d = ('arr', self.describe(ct.item, memo), ct.length)
         elif k == 'function':
+            # NB: the 'ellipsis' attribute of a ctype is True whenever the type has no prepared
+            # cif, which includes non-variadic signatures libffi cannot call (e.g. a union passed
+            # by value).  The C type's own spelling is authoritative for variadic-ness.
             d = ('func', self.describe(ct.result, memo), tuple(self.describe(a, memo) for a in ct.args),
-                 ct.ellipsis, ct.abi)
+                 ct.cname.endswith('...)'), ct.abi)
         else:
             raise HarnessError('unknown ctype kind %r' % k)
         memo[i] = (d, ct)
@@ -341,7 +344,7 @@ class C27(core.Check):
     engine = 'H'
     quick_runs = 20000
     thorough_budget_s = 900
-    chunk = 50
+    chunk = 125
     history_dependent = True     # unique_cache and the modules' type caches outlive a run
     crash_clause = 'C27.1'
     env = {'MALLOC_PERTURB_': '221', 'PYTHONMALLOC': 'malloc'}
